@@ -16,25 +16,45 @@ Proof. exact reach_nondata_abs. Qed.
 (* hence read / contains answer as before *)
 Theorem C04_read_unchanged :
   forall (K : N) (cfg : config) (ops : list op) (o : op) (k : N),
-    is_data_op o = false -> s_f2 (reach K cfg (ops ++ [o])) = false ->
+    is_data_op o = false ->
     get_latest_entry (reach K cfg (ops ++ [o])) k None = get_latest_entry (reach K cfg ops) k None.
 Proof. exact reach_maint_read. Qed.
 
 (* and the invariant under which every later operation is defined is kept by every operation *)
 Theorem C04_invariant_kept :
   forall (K : N) (cfg : config) (ops : list op),
-    s_f2 (reach K cfg ops) = false -> Inv K (reach K cfg ops).
+    Inv K (reach K cfg ops).
 Proof. exact reach_Inv. Qed.
 
-(* "After any of them the storage keeps accepting writes" is REFUTED by the faithful model (finding F2):
-   after the index of a closed blob was dumped, try_restore_active_blob makes it active as it is, and the
-   next write appends its bytes and then fails with ErrorKind::Index. Witness by computation: *)
+(* After any of them -- after any history at all -- the storage keeps accepting writes and deletes:
+   neither is ever refused with ErrorKind::Index ...
+   Before the repair of restore_active (commit ad9222f of the code) this was REFUTED (finding F2) by
+   close_active; dump; restore_active; write: after the index of a closed blob was dumped,
+   try_restore_active_blob made it active as it was, and the next write appended its bytes and then
+   failed with ErrorKind::Index. The restored blob's index is now loaded into memory. *)
+Theorem C04_still_writable :
+  forall (K : N) (cfg : config) (ops : list op) (k ts : N) (meta : option N) (msize dlen dseed : N) (oip : bool),
+    snd (step K cfg (reach K cfg ops) (OWrite k ts meta msize dlen dseed)) <> RErr EIndex /\
+    snd (step K cfg (reach K cfg ops) (ODelete k ts meta msize oip)) <> RErr EIndex.
+Proof. exact data_op_never_index_error. Qed.
+
+(* ... and on an open storage every write is acknowledged *)
+Theorem C04_write_acknowledged :
+  forall (K : N) (cfg : config) (ops : list op) (k ts : N) (meta : option N) (msize dlen dseed : N),
+    s_open (reach K cfg ops) = true ->
+    snd (step K cfg (reach K cfg ops) (OWrite k ts meta msize dlen dseed)) = RUnit.
+Proof. exact write_acknowledged. Qed.
+
+(* the former witness of F2, by computation: the write after close_active; (dump at the quiescence
+   point); restore_active is acknowledged *)
 Definition c04_cfg : config := {| c_dup := true; c_maxrec := 1000; c_maxsize := 1000000 |}.
-Example C04_still_writable_refuted :
+Example C04_still_writable_former_F2_history :
   snd (step_q 4 c04_cfg (reach 4 c04_cfg [OOpen false; OWrite 1 7 None 8 5 1; OCloseActive; ORestoreActive])
-                (OWrite 1 9 None 8 5 2)) = RErr EIndex.
+                (OWrite 1 9 None 8 5 2)) = RUnit.
 Proof. vm_compute. reflexivity. Qed.
 
 Print Assumptions C04_log_unchanged.
 Print Assumptions C04_read_unchanged.
 Print Assumptions C04_invariant_kept.
+Print Assumptions C04_still_writable.
+Print Assumptions C04_write_acknowledged.
